@@ -54,6 +54,11 @@ const (
 // c15NoExclude: C15_NOEXCLUDE=1 switches every predicate off, C15_NOEXCLUDE=<id>[,<id>] switches single
 // ones off (sensitivity check: the search must then find the defect).
 func c15NoExclude(id string) bool {
+	// every defect these predicates avoided has been repaired in /repo (see known_findings.json, "fixed:");
+	// the predicates stay switched off so that a regression is reported again
+	if os.Getenv("C15_EXCLUDE") == "" {
+		return true
+	}
 	v := os.Getenv("C15_NOEXCLUDE")
 	if v == "" {
 		return false
